@@ -30,6 +30,7 @@ type zzL2Actor struct {
 
 func (a *zzL2Actor) Receive(c *Context) {
 	m := a.mon
+	zzrt.RaceAccess(m, true) // receiver state is touched without synchronisation: consecutive Receives must be ordered by happens-before
 	m.active++
 	if m.active != 1 {
 		m.overlap = true
@@ -69,6 +70,10 @@ func ZZ_L2() {
 
 	e, sink := zzBareEngine()
 	mon := &zzL2Mon{}
+	if prop == 2 {
+		zzrt.RaceDetect(true)
+		zzrt.RaceWatch(true)
+	}
 	mk := func(tag int) *process {
 		opts := DefaultOpts(func() Receiver {
 			mon.incs++
@@ -112,6 +117,7 @@ func ZZ_L2() {
 		zzrt.Go(func() { e.SpawnProc(p2) })
 	}
 	zzrt.Quiesce()
+	zzrt.RaceWatch(false)
 
 	zzrt.Assert(!mon.overlap, "C02:Receive-overlaps")
 	if prop == 2 {
